@@ -283,7 +283,7 @@ func runC08(ctx Ctx) int {
 			}
 		}
 	}
-	deadline := devx.Deadline(map[string]time.Duration{"quick": 4 * time.Minute, "thorough": 20 * time.Minute}[run.Tier])
+	deadline := devx.Deadline(map[string]time.Duration{"quick": 4 * time.Minute, "thorough": 15 * time.Minute}[run.Tier])
 	_, complete := parallel(len(cases), deadline, func(i int) {
 		c := cases[i]
 		classes, bad := c08Exec(c)
